@@ -60,6 +60,10 @@ type FS struct {
 	handles int            // open file handles
 	// FailAfter, when >= 0, makes every state-changing call fail once that many events were recorded.
 	FailAfter int
+	// FailCall, when >= 0, makes the FailCall-th call of any kind (counted from 0; reads, directory
+	// listings and stats included) return an error once; Calls counts them.
+	FailCall int
+	Calls    int
 }
 
 // New returns an empty file system.
@@ -67,7 +71,7 @@ func New() *FS { return FromImage(nil) }
 
 // FromImage returns a file system holding the given files.
 func FromImage(img map[string][]byte) *FS {
-	t := &FS{names: map[string]*node{}, base: map[string][]byte{}, locks: map[*node]bool{}, FailAfter: -1}
+	t := &FS{names: map[string]*node{}, base: map[string][]byte{}, locks: map[*node]bool{}, FailAfter: -1, FailCall: -1}
 	for name, data := range img {
 		t.names[name] = &node{id: t.nextID, data: append([]byte(nil), data...)}
 		t.nextID++
@@ -122,6 +126,13 @@ func (t *FS) OpenHandles() int {
 func (t *FS) record(e Event) { t.events = append(t.events, e) }
 
 func (t *FS) failing() bool { return t.FailAfter >= 0 && len(t.events) >= t.FailAfter }
+
+// tick counts a call and reports whether it is the one to fail.
+func (t *FS) tick() bool {
+	n := t.Calls
+	t.Calls++
+	return t.FailCall >= 0 && n == t.FailCall
+}
 
 var errInjected = &os.PathError{Op: "tfs", Path: "", Err: os.ErrPermission}
 
@@ -277,10 +288,10 @@ type PendingOp struct {
 
 // Durability describes, at one instant, the durable content and the pending operations per file.
 type Durability struct {
-	Names   map[string]int       // name -> node
-	Synced  map[int][]byte       // node -> content as of the last Sync (empty for a new file)
-	Pending map[int][]PendingOp  // node -> writes/truncations since
-	Order   []int                // nodes that have pending operations, in first-pending order
+	Names   map[string]int      // name -> node
+	Synced  map[int][]byte      // node -> content as of the last Sync (empty for a new file)
+	Pending map[int][]PendingOp // node -> writes/truncations since
+	Order   []int               // nodes that have pending operations, in first-pending order
 }
 
 // DurabilityAt computes the durability state after events [0, n).
@@ -381,6 +392,9 @@ func (i info) Info() (os.FileInfo, error) { return i, nil }
 func (t *FS) OpenFile(name string, flag int, perm os.FileMode) (fs.File, error) {
 	t.mu.Lock()
 	defer t.mu.Unlock()
+	if t.tick() {
+		return nil, errInjected
+	}
 	name = filepath.Clean(name)
 	n := t.names[name]
 	if n == nil {
@@ -409,6 +423,9 @@ func (t *FS) OpenFile(name string, flag int, perm os.FileMode) (fs.File, error) 
 func (t *FS) Stat(name string) (os.FileInfo, error) {
 	t.mu.Lock()
 	defer t.mu.Unlock()
+	if t.tick() {
+		return nil, errInjected
+	}
 	name = filepath.Clean(name)
 	if n, ok := t.names[name]; ok {
 		return info{name, int64(len(n.data))}, nil
@@ -420,6 +437,9 @@ func (t *FS) Stat(name string) (os.FileInfo, error) {
 func (t *FS) Remove(name string) error {
 	t.mu.Lock()
 	defer t.mu.Unlock()
+	if t.tick() {
+		return errInjected
+	}
 	name = filepath.Clean(name)
 	n, ok := t.names[name]
 	if !ok {
@@ -437,6 +457,9 @@ func (t *FS) Remove(name string) error {
 func (t *FS) Rename(oldpath, newpath string) error {
 	t.mu.Lock()
 	defer t.mu.Unlock()
+	if t.tick() {
+		return errInjected
+	}
 	oldpath, newpath = filepath.Clean(oldpath), filepath.Clean(newpath)
 	n, ok := t.names[oldpath]
 	if !ok {
@@ -455,6 +478,9 @@ func (t *FS) Rename(oldpath, newpath string) error {
 func (t *FS) ReadDir(dir string) ([]os.DirEntry, error) {
 	t.mu.Lock()
 	defer t.mu.Unlock()
+	if t.tick() {
+		return nil, errInjected
+	}
 	dir = filepath.Clean(dir)
 	var entries []os.DirEntry
 	for name, n := range t.names {
@@ -468,6 +494,9 @@ func (t *FS) ReadDir(dir string) ([]os.DirEntry, error) {
 
 // List returns the sorted names (relative to dir) of the files in dir.
 func (t *FS) List(dir string) []string {
+	t.mu.Lock()
+	t.Calls-- // not a call of the code under test
+	t.mu.Unlock()
 	es, _ := t.ReadDir(dir)
 	var out []string
 	for _, e := range es {
